@@ -59,6 +59,8 @@ var c08Corpus = []string{
 	`S matches Re`, `T matches S + ".*"`, `any(Strs, {# matches Re})`, `count(Strs, {T matches "^" + # + "$"}) >= 0`, `It.Name matches (Re + "|" + S)`, `map(Items, {.Name matches Re})`,
 	`"a\tb" + S`, `'\u00e9\x41' == T`, `S contains "\n" or T startsWith "q\"q"`, `["\\", "\a\b", 'x\'y'][A % 3 < 0 ? 0 : 1]`, `{"k\u0041": S + "\r\n"}`,
 	`2 + 3 * 4 == 14`, `"con" + "cat" == "concat"`, `(1..5)[2]`, `A not in [10, 20] and S not in ["zz"]`,
+	// folded sequences handed to a function that changes its argument in place
+	`RevInts(1..5)`, `RevInts([3, 1, 2])[0]`, `RevInts(1..4) == [4, 3, 2, 1]`,
 }
 
 type c08Prog struct {
